@@ -80,7 +80,7 @@ def step (s : St) (toks : List String) : St × String :=
             let l2 := ";".intercalate (evs.map (fun (_, st) => showSt st true) ++ [showSt sf false])
             (sf, s!"{l1} | {l2}")
     | _, _, _ => (s, "bad-op")
-  -- what the concrete model itself reports (used by `tools/props/c18.py --selfcheck` style debugging)
+  -- debugging aid: what the concrete model itself reports (not used by the check)
   | "mparse" :: t :: words =>
     match t.toNat?, words.mapM bytesOfHex with
     | some t, some argv =>
